@@ -17,3 +17,5 @@ func Crash(point string) {}
 func CrashTornWrite(point string, path string, data []byte) {}
 
 func CrashTruncating(point string, dir string) {}
+
+func JSONConsumer(firstLine int, lines int) {}
